@@ -46,25 +46,31 @@ def build(cfg, variant=0):
     rho = float(Fraction(*cfg["rho"]))
     th = float(Fraction(*cfg["thick"]))
     phys, dim, elem = cfg["phys"], cfg["dim"], cfg["elem"]
+    k = 10.0 ** cfg.get("unit", 0)  # unit of length (Spectrum.tla: Units): the same body written in another unit
     with quiet():
+        if phys in ("elastic", "thermal") and k != 1.0:
+            from harness.lifecycle import clone_mesh_with_coords
+
+            base = build_mesh(elem, dim, variant, cfg.get("shape", "box"))
+            scaled = clone_mesh_with_coords(base, base.coord * k)
         if phys == "elastic":
-            mesh = build_mesh(elem, dim, variant, cfg.get("shape", "box"))
+            mesh = build_mesh(elem, dim, variant, cfg.get("shape", "box")) if k == 1.0 else scaled
             mat = Models.Elastic.Isotropic(dim, E=10.0, v=0.25, planeStress=True, thickness=th)
             sim = Simulations.Elastic(mesh, mat, verbosity=False)
         elif phys == "thermal":
-            mesh = build_mesh(elem, dim, variant, cfg.get("shape", "box"))
+            mesh = build_mesh(elem, dim, variant, cfg.get("shape", "box")) if k == 1.0 else scaled
             mat = Models.Thermal(k=2.0, c=1.0, thickness=th)
             sim = Simulations.Thermal(mesh, mat, verbosity=False)
         else:
-            section = Mesher().Mesh_2D(Domain(Point(-0.25, -0.125), Point(0.25, 0.125)))
+            section = Mesher().Mesh_2D(Domain(Point(-0.25 * k, -0.125 * k), Point(0.25 * k, 0.125 * k)))
             # 2-D / 3-D beams are inclined so that the local-to-global map is exercised
             dirs = {1: {"ur": (1, 0, 0), "ul": (-1, 0, 0)},
                     2: {"ur": (0.6, 0.8, 0), "ul": (-0.6, 0.8, 0), "dl": (-0.8, -0.6, 0), "dr": (0.8, -0.6, 0)},
                     3: {"ur": (2 / 3, 2 / 3, 1 / 3), "ul": (-2 / 3, 2 / 3, 1 / 3), "dl": (-2 / 3, -1 / 3, -2 / 3), "dr": (1 / 3, -2 / 3, 2 / 3)}}[dim]
             t = dirs[cfg.get("dir", "ur")]
-            p1 = Point(3, 0) if (dim == 1 and t[0] < 0) else Point(0, 0)
-            p2 = Point(p1.x + 3 * t[0], p1.y + 3 * t[1], p1.z + 3 * t[2])
-            line = Line(p1, p2, 1.5 if variant == 0 else 0.8)
+            p1 = Point(3 * k, 0) if (dim == 1 and t[0] < 0) else Point(0, 0)
+            p2 = Point(p1.x + 3 * k * t[0], p1.y + 3 * k * t[1], p1.z + 3 * k * t[2])
+            line = Line(p1, p2, (1.5 if variant == 0 else 0.8) * k)
             beam = Models.Beam.Isotropic(dim, line, section, 10.0, 0.25)
             mesh = Mesher().Mesh_Beams([beam], elemType=ElemType(elem))
             sim = Simulations.Beam(mesh, Models.Beam.BeamStructure([beam]), verbosity=False, useTimoshenko=(phys == "beamTimo"))
@@ -109,12 +115,20 @@ def analyse(sim, cfg, which=("K", "M")):
     out = []
     phys, dim, elem = cfg["phys"], cfg["dim"], cfg["elem"]
     K, C, M, F = [m.toarray() for m in sim.Get_K_C_M_F()]
-    tag = f"{phys}{dim}D/{elem}" + (f"/{cfg['dir']}" if phys.startswith("beam") and cfg.get("dir", "ur") != "ur" else "") + ("/round" if cfg.get("shape", "box") == "round" else "")
+    tag = f"{phys}{dim}D/{elem}" + (f"/{cfg['dir']}" if phys.startswith("beam") and cfg.get("dir", "ur") != "ur" else "") + ("/round" if cfg.get("shape", "box") == "round" else "") + (f"/unit1e{cfg['unit']}" if cfg.get("unit", 0) else "")
     used = np.unique(np.concatenate([g.connect.ravel() for g in sim.mesh.Get_list_groupElem()]))
     dofn = sim.Get_dof_n()
     dofs = (used[:, None] * dofn + np.arange(dofn)[None, :]).ravel()
+    # beams mix translations and rotations: written in another unit of length the rotational stiffness differs from the
+    # translational one by the square of the unit.  A congruence S K S with S = diag(1 on translations, 1 / unit on rotations)
+    # keeps symmetry, inertia and kernel (Sylvester) and removes that artificial ill-conditioning before the spectral analysis
+    Sd = np.ones(dofs.size)
+    if phys.startswith("beam") and cfg.get("unit", 0) and dim > 1:
+        kk = 10.0 ** cfg["unit"]
+        rot = {2: [2], 3: [3, 4, 5]}[dim]
+        Sd = np.array([1.0 / kk if (d_ % dofn) in rot else 1.0 for d_ in dofs])
     if "K" in which:
-        Kd = K[np.ix_(dofs, dofs)]
+        Kd = K[np.ix_(dofs, dofs)] * Sd[:, None] * Sd[None, :]
         s = np.abs(Kd).max()
         if np.abs(Kd - Kd.T).max() > 1e-12 * s:
             out.append((f"K-symmetry/{tag}", f"K of {tag} is not symmetric (max asymmetry {np.abs(Kd - Kd.T).max():.3g})"))
@@ -127,13 +141,13 @@ def analyse(sim, cfg, which=("K", "M")):
         if n0 != cfg["_kernel"]:
             kind = "spurious zero-energy modes" if n0 > cfg["_kernel"] else "missing zero-energy modes"
             out.append((f"K-kernel/{tag}", f"K of {tag} has {n0} zero-energy modes, expected exactly {cfg['_kernel']} ({kind}; mesh with {sim.mesh.Ne} elements)"))
-        R = rigid_modes(sim, cfg)[dofs]
+        R = rigid_modes(sim, cfg)[dofs] / Sd[:, None]  # the same modes in the rescaled dofs (S K S)(S^-1 r) = S K r
         res = np.abs(Kd @ R).max() / (s * max(1.0, np.abs(R).max()))
         if res > 1e-9:
             out.append((f"K-rigid/{tag}", f"a physical rigid-body / constant mode of {tag} is not in the kernel of K (|K r| / |K| = {res:.3g})"))
     if "M" in which:
         Mm = C if phys == "thermal" else M
-        Md = Mm[np.ix_(dofs, dofs)]
+        Md = Mm[np.ix_(dofs, dofs)] * Sd[:, None] * Sd[None, :]
         s = np.abs(Md).max()
         if s == 0:
             out.append((f"M-zero/{tag}", f"mass/capacity matrix of {tag} is zero"))
@@ -148,7 +162,7 @@ def analyse(sim, cfg, which=("K", "M")):
             if w.min() < -1e-10 * w.max():
                 out.append((f"M-psd/{tag}", f"beam mass matrix of {tag} has a negative eigenvalue {w.min():.3g}"))
         ntr = 1 if phys == "thermal" else dim
-        exp = float(Fraction(*cfg["_massSum"]))
+        exp = float(Fraction(*cfg["_massSum"])) * (10.0 ** cfg.get("unit", 0)) ** (3 if phys.startswith("beam") else dim)
         if cfg.get("_massFrom", "domain") == "mesh":
             # round domains: the measure is the one of the mesh (settled by C07), the table gives rho * thickness only
             exp = float(Fraction(*cfg["rho"])) * float(Fraction(*cfg["thick"])) * (sim.mesh.area if dim == 2 else sim.mesh.volume)
@@ -175,7 +189,7 @@ def _job(job):
         import traceback
 
         return {"viol": [(f"build-raises/{cfg['phys']}{cfg['dim']}D/{cfg['elem']}", f"{type(ex).__name__}: {ex} {traceback.format_exc()[-400:]}", {"case": case})], "n": 1, "keys": [], "traces": 1}
-    return {"viol": [(k, m, {"case": case, "variant": variant}) for k, m in res], "n": 1, "keys": [(cfg["phys"], cfg["dim"], cfg["elem"], tuple(cfg["rho"]), tuple(cfg["thick"]), cfg.get("dir"), cfg.get("shape"), variant)], "traces": 1}
+    return {"viol": [(k, m, {"case": case, "variant": variant}) for k, m in res], "n": 1, "keys": [(cfg["phys"], cfg["dim"], cfg["elem"], tuple(cfg["rho"]), tuple(cfg["thick"]), cfg.get("dir"), cfg.get("shape"), cfg.get("unit", 0), variant)], "traces": 1}
 
 
 def kernel_checks(ctx, which=("K", "M"), label="C02", thorough=None):
